@@ -196,6 +196,9 @@ impl Check for C13 {
         let n = rng.gen_range(6..=14);
         serde_json::to_value(Scenario { events: (0..n).map(|_| rng.gen_range(0..ALPHABET as u8)).collect(), net_seed: rng.gen(), concurrent_probes: rng.gen_bool(0.5) }).unwrap()
     }
+    fn isolate(&self, _scenario: &Value) -> bool {
+        true
+    }
     fn execute(&self, scenario: &Value) -> Outcome {
         let sc: Scenario = match serde_json::from_value(scenario.clone()) {
             Ok(s) => s,
